@@ -45,6 +45,8 @@ func checkC01(p *Program, r *Result) {
 	// what the reader decodes and validates a chunk with is what the writer put into the chunk header
 	r.rule("C01.s", "the writer's scratch buffer holds one record at a time (no encoder call between fill and write)", 5)
 	checkScratchExclusive(p, r, "C01.s")
+	r.rule("C01.p", "a record filled in place has every field assigned on every successful path; fresh-record wrappers test the decode error", 6)
+	checkPopulateComplete(p, r, "C01.p")
 	r.rule("C01.h", "chunk header size/CRC/times are those of this chunk: captured before reset, accumulators start fresh (C05.d)", 9)
 	importRule(p, r, "C01.h", func(sub *Result) { checkFlush(p, sub) }, nil)
 }
